@@ -915,4 +915,64 @@ theorem sortToks_time_sorted (po : Int → Bool) {es : List C03.Ev} (wf : C03.WF
 example : checkTopo [⟨⟨1, true⟩, ⟨1, false⟩, 5, .op⟩, ⟨⟨1, false⟩, ⟨2, true⟩, 0, .dep⟩]
     (fun n => if n.ev == 1 then (if n.isStart then 0 else 1) else 2) = true := by decide
 
+/-! ### the whole graph: call-stack edges of every thread and the kernel loop together -/
+
+theorem threadDescs_forward (rows clipped : List Row) (t : Int × Int)
+    (hrows : ∀ r ∈ clipped, findRow rows r.idx = some r)
+    (hdur : ∀ r ∈ clipped, 0 ≤ r.dur)
+    (hwf : C03.WF ((C13.threadRows clipped t).map fun r => (⟨r.idx, r.ts, max r.dur 0⟩ : C03.Ev))) :
+    ∀ d ∈ threadDescs clipped t, tsOf rows d.src ≤ tsOf rows d.dst := by
+  unfold threadDescs
+  simp only []
+  split
+  · intro d hd; cases hd
+  · generalize hevs : ((C13.threadRows clipped t).map fun r => (⟨r.idx, r.ts, max r.dur 0⟩ : C03.Ev)) = evs at hwf ⊢
+    have hsorted := sortToks_time_sorted (C03.hasPO evs) hwf
+    have hperm := (C03.sortToks_spec (C03.hasPO evs) hwf).1
+    -- every token carries the time of the node it stands for
+    have hts : ∀ tk ∈ C03.sortToks (C03.hasPO evs) (C03.tokens evs),
+        (fun (i : Int) => ((findRow clipped i).map hasNode).getD false) tk.idx = true →
+        tsOf rows ⟨tk.idx, tk.kind == -1⟩ = tk.time := by
+      intro tk htk _
+      have hmem : tk ∈ C03.tokens evs := hperm.subset htk
+      unfold C03.tokens at hmem
+      rw [← hevs] at hmem
+      simp only [List.map_map, List.mem_append, List.mem_map, Function.comp] at hmem
+      rcases hmem with ⟨r, hr, rfl⟩ | ⟨r, hr, rfl⟩
+      · have hrc : r ∈ clipped := (List.mem_filter.mp hr).1
+        simp [C03.openTok, tsOf, hrows r hrc, nodeTs]
+      · have hrc : r ∈ clipped := (List.mem_filter.mp hr).1
+        have := hdur r hrc
+        simp [C03.closeTok, tsOf, hrows r hrc, nodeTs]
+        omega
+    cases htoks : C03.sortToks (C03.hasPO evs) (C03.tokens evs) with
+    | nil => intro d hd; simp [dfsRun] at hd
+    | cons t0 rest =>
+      rw [htoks] at hsorted hts
+      have hp := List.pairwise_cons.mp hsorted
+      refine C08_callstack_edges_forward rows _ _ _ (t0 :: rest) hsorted hts _ t0.time ?_ ⟨(by intro n h; cases h), (by intro n h; cases h)⟩
+      intro x hx
+      rcases List.mem_cons.mp hx with rfl | hx
+      · exact Int.le_refl _
+      · exact hp.1 x hx
+
+/-- **The whole graph points forward in time and carries no negative weight** — for a frame with
+unique event ids, properly nested host threads and a causally consistent device side (`Causal`,
+stated on the order in which the kernel loop processes its rows). -/
+theorem C08_graph_forward (rows : List Row) (ws : Waits) (w : Int × Int) (zl : Bool)
+    (hrows : ∀ r ∈ clip rows w, findRow rows r.idx = some r)
+    (hdur : ∀ r ∈ clip rows w, 0 ≤ r.dur)
+    (hwf : ∀ t ∈ C13.threadsOf (clip rows w), C03.WF ((C13.threadRows (clip rows w) t).map fun r => (⟨r.idx, r.ts, max r.dur 0⟩ : C03.Ev)))
+    (hcausal : Causal rows (clip rows w) ws (kernelRows rows (clip rows w))) :
+    (∀ e ∈ (build rows ws w zl).2.edges, Forward rows e) ∧ (∀ e ∈ (build rows ws w zl).2.edges, 0 ≤ e.weight) := by
+  have hf : ∀ e ∈ (build rows ws w zl).2.edges, Forward rows e := by
+    apply C08_forward_of_descs
+    intro d hd
+    unfold descs at hd
+    rcases List.mem_append.mp hd with hd | hd
+    · obtain ⟨t, ht, hdt⟩ := List.mem_flatMap.mp hd
+      exact threadDescs_forward rows _ t hrows hdur (hwf t ht) d hdt
+    · exact C08_kernel_edges_forward rows _ ws _ zl _ hcausal d hd
+  exact ⟨hf, C08_weights_nonneg rows ws w zl hf⟩
+
 end Hta.C08
